@@ -1957,25 +1957,46 @@ Fixpoint final_state (par : bool) (d : delegate) (st : dstate) (steps : list ste
   | [] => st
   | Dispatch o t :: rest => final_state par d (dispatch_op st o t) rest
   | Evaluate pop :: rest => final_state par d (snd (evaluate_op par d st pop)) rest
+  | SetDelegate d' :: rest => final_state par d' st rest
+  | Aborted pop :: rest => final_state par d (aborted_op par d st pop) rest
   end.
 
-Lemma run_session_app : forall par d a b st,
-  run_session par d st (a ++ b) = run_session par d st a ++ run_session par d (final_state par d st a) b.
+(* the delegate in force after a sequence of steps *)
+Fixpoint final_delegate (d : delegate) (steps : list step) : delegate :=
+  match steps with
+  | [] => d
+  | SetDelegate d' :: rest => final_delegate d' rest
+  | _ :: rest => final_delegate d rest
+  end.
+
+Lemma run_session_app : forall par a b d st,
+  run_session par d st (a ++ b) =
+  run_session par d st a ++ run_session par (final_delegate d a) (final_state par d st a) b.
 Proof.
-  induction a as [|x a IH]; intros b st; [reflexivity|].
-  destruct x as [o t|pop]; cbn [app run_session final_state evaluate_op snd]; rewrite IH; reflexivity.
+  induction a as [|x a IH]; intros b d st; [reflexivity|].
+  destruct x as [o t|pop|d'|pop]; cbn [app run_session final_state final_delegate evaluate_op snd];
+    rewrite IH; reflexivity.
 Qed.
 
 (* whatever happened to the dispatcher before (earlier dispatches with other objectives and
-   timers - e.g. one that has expired -, earlier evaluations): after dispatch(o, t) every
-   evaluation answers exactly what a fresh dispatcher dispatched with (o, t) answers *)
+   timers - e.g. one that has expired -, earlier evaluations, evaluations aborted by an escaping
+   exception that left their delegate cache behind, the delegate switched off or exchanged):
+   after dispatch(o, t) every evaluation answers exactly what a fresh dispatcher with the
+   delegate now in force, dispatched with (o, t), answers *)
 Theorem session_last_dispatch : forall par d st before o t pops,
   run_session par d st (before ++ Dispatch o t :: map Evaluate pops) =
-  run_session par d st before ++ map (evaluate_fresh par o d (timer_or_forever t)) pops.
+  run_session par d st before ++ map (evaluate_fresh par o (final_delegate d before) (timer_or_forever t)) pops.
 Proof.
   intros. rewrite run_session_app. f_equal.
   cbn [run_session]. rewrite run_session_evaluations. reflexivity.
 Qed.
+
+(* an aborted run with an enabled delegate, the delegate switched off, the same population again:
+   everybody is evaluated on its own graph (eff_graph None = gr, see delegate_absent) *)
+Theorem session_stale_cache_unused : forall par f st pop,
+  run_session par (Some f) st [Aborted pop; SetDelegate None; Evaluate pop] =
+  [evaluate_fresh par (s_objective st) None (s_timer st) pop].
+Proof. reflexivity. Qed.
 
 (* in particular a dispatch without timer means no time limit, even after an expired one *)
 Theorem session_timer_reset : forall par d st o1 o2 pop1 pop2,
